@@ -43,6 +43,22 @@ def refVerifyBytes (strict : Bool) (alg : String) (payload : J) (discs : List St
 
 def opHash (req : J) : J := mkObj [("h", S (b64Hash (jstr req "alg") (jstr req "s")))]
 
+/-- the model's `Disclosure::build` on a given salt: `Codec.discString` and `Codec.hash` of it; also whether
+the JSON text codec the driver runs reads back what it writes for this value (the one assumption
+`C01_end_to_end_bytes` makes of the byte level) -/
+def opDiscString (req : J) : J :=
+  let key := match jget req "key" with
+    | some (.str k) => some k
+    | _ => none
+  let v := (jget req "value").getD .null
+  let salt := jstr req "salt"
+  let s := codec.discString salt key v
+  let j := Impl.discJson salt key v
+  mkObj [("s", S s), ("h", S (codec.hash (jstr req "alg") s)),
+         ("roundtrip", .bool (match codec.parse (codec.render j) with
+            | some j' => (j' == j)
+            | none => false))]
+
 def partsJ (p : Impl.Parts) : J :=
   mkObj [("jwt", L p.jwt), ("disclosures", .arr (p.disclosures.map L)),
          ("kb", match p.kb with | some k => L k | none => .null)]
@@ -301,6 +317,7 @@ def opYaml (req : J) : J :=
 def dispatch (req : J) : J :=
   match jstr req "op" with
   | "hash" => opHash req
+  | "disc_string" => opDiscString req
   | "parts" => opParts req
   | "restore" => opRestore req
   | "tree" => opTree req
